@@ -109,7 +109,7 @@ def classify_crash(rc, stderr):
     return "abort" if rc in (-6, 134) else "killed"
 
 
-def run_worker_shard(binpath, shard, out, extra_env=None, per_case_timeout=60):
+def run_worker_shard(binpath, shard, out, extra_env=None, per_case_timeout=300):
     """Run `asever worker` over a shard. A crash (abort, stack overflow, OOM kill, hang) of the
     library under test becomes an `end` event for the case that was running, and the shard resumes."""
     skip = 0
@@ -182,7 +182,7 @@ def run_worker_shard(binpath, shard, out, extra_env=None, per_case_timeout=60):
     return crashes
 
 
-def run_workers(binpath, cases, outprefix, shards=8, extra_env=None, per_case_timeout=60):
+def run_workers(binpath, cases, outprefix, shards=8, extra_env=None, per_case_timeout=300):
     paths, n = split_lines(cases, shards, outprefix + ".in")
     outs = [p.replace(".in.", ".ev.") for p in paths]
     crashes = []
